@@ -175,12 +175,13 @@ macro_rules! for_ns {
 }
 
 pub fn run(ctx: &mut Ctx) {
-    for_ns!(ctx, [U0, U1, U2, U3, U4, U5, U8, U16, U33], [U6, U7, U17, U100], N => {
+    for_ns!(ctx, [U0, U1, U2, U3, U4, U5, U8, U16, U33], [U6, U7, U17, U100, U1000], N => {
         macro_rules! per_elem {
             ($E:ty) => {
                 for entry in 0u8..4 {
                     let en = ["try_from_iter", "from_iter", "try_boxed_from_iter", "boxed-from_iter"][entry as usize];
-                    for c in 0..=N::USIZE + 3 {
+                    let cs: Vec<usize> = if N::USIZE <= 100 { (0..=N::USIZE + 3).collect() } else { vec![0, 1, N::USIZE / 2, N::USIZE - 1, N::USIZE, N::USIZE + 1, N::USIZE + 3] };
+                    for c in cs {
                         for &hint in HINTS {
                             for fused in [true, false] {
                                 let d = format!("C07;{en};N={};c={c};hint={hint:?};fused={fused};E={}", N::USIZE, <$E as Elem>::NAME);
@@ -193,7 +194,8 @@ pub fn run(ctx: &mut Ctx) {
                                 ctx.case(&format!("{d};k=-"), || collect_case::<N, $E>(entry, c, hint, fused, None).map(|x| x.0));
                                 // panics at every call index: all hints for small N, the three hint families otherwise
                                 if N::USIZE <= 5 || matches!(hint, Hint::Exact | Hint::Absent | Hint::LyingHigh) {
-                                    for k in 0..calls as u64 {
+                                    let ks: Vec<u64> = if calls <= 128 { (0..calls as u64).collect() } else { let c = calls as u64; let mut v = vec![0, 1, c / 2, c - 2, c - 1, 63, 64, 65, 127, 128, 129, 511, 512, 513]; v.retain(|&k| k < c); v.sort(); v.dedup(); v };
+                                    for k in ks {
                                         ctx.case(&format!("{d};k={k}"), || collect_case::<N, $E>(entry, c, hint, fused, Some(k)).map(|x| x.0));
                                     }
                                 }
